@@ -130,12 +130,17 @@ CLAIMED = {
         ref="7-C16", technique="Coq proof (entry points coincide on char boundaries) + impl-vs-impl differential check; owned-copy independence by observation"),
     "C19": dict(
         text="Theorems C19_new/C19_v1/C19_unix/C19_pair/C19_same_endpoints (Props/C19.v) state the argument-to-role mapping of "
-             "every constructor and From impl for all values; in Gallina they are reflexivity facts about Model/Ctor.v, so the "
-             "assurance here comes from the tie: the real IPv4::new / IPv6::new / Unix::new / new_tcp4 / new_tcp6 / From impls are "
-             "compared field by field with the model and with the inputs on 8k tuples whose components are pairwise different "
-             "(all four SocketAddr combinations, flow-info and scope set, Unix paths differing in one byte).",
-        ref="7-C19", technique="Coq statements (trivial) + differential correspondence and field-by-field oracle on constructors",
-        note=TIE + " For this property the proof layer is nearly vacuous (immutable records); the check is, in effect, exhaustive-by-shape differential testing."),
+             "every constructor and From impl for all values (reflexivity facts about Model/Ctor.v). C19_round_v1 / C19_round_v2 "
+             "(Proofs/Roles.v, resting on the C08 and C07 round trips) carry the roles end to end: for every pair of socket "
+             "addresses, the converted value formatted as a v1 line / built as a v2 header and parsed back has the pair's "
+             "(source ip, source port, destination ip, destination port); C19_wire_layout / C19_text_layout fix the order on the "
+             "wire and in the text; C19_mixed the unknown / unspecified encodings of a mixed pair. Tie: the real IPv4::new / "
+             "IPv6::new / Unix::new / new_tcp4 / new_tcp6 / From impls compared field by field with the model and with the inputs "
+             "on 8k tuples whose components are pairwise different (all four SocketAddr combinations, flow-info and scope set, "
+             "Unix paths differing in one byte), and every pair additionally carried through Display->parse and Builder->parse "
+             "in the implementation and in the model (`pairrt`).",
+        ref="7-C19", technique="Coq proof (role mapping; end-to-end role preservation through the v1/v2 round-trip theorems) + differential correspondence and field-by-field oracle on constructors",
+        note=TIE + " The constructor theorems are reflexivity facts (immutable records); the end-to-end theorems rest on the C07/C08 round-trip proofs."),
     "C03": dict(
         text="Theorems C03_v1_bytes/str/from_str, C03_v2, C03_auto, C03_v2_views, C03_v1_views, C03_tlv (Props/C03.v): a panic-aware "
              "mirror of the parsing surface (Model/Panic.v: every index, byte/str slice, usize +/-, copy_from_slice is a partial "
